@@ -1,3 +1,48 @@
-From Sonic Require Import Base.Prelude Model.WsAsync.
-Theorem C17_placeholder : True. Proof. exact I. Qed.
-Print Assumptions C17_placeholder.
+(* C17 -- a WebSocket read and write in flight together.
+   Model/WsAsync.v is a focused model of the layers whose interplay decides the property: the AsyncAdapter's single write
+   reactor (every write is first deferred to the poller; AsyncWriteAll (re)initialises the reactor), CodecConn/ByteBuffer
+   asynchronous write (encode into dst, write all of dst, consume), the Stream's asynchronous flush chain with the callers
+   waiting for a flush in flight, AsyncWrite, and the read path AsyncNextMessage -> AsyncNextFrame -> AsyncFlush ->
+   asyncNextFrame with the Pong a Ping queues.  Peer events, application calls and polls come in any order; a poll
+   accepts any number of bytes per write call (partial writes).  Frames are opaque byte strings here (C16), message
+   reassembly and the close handshake are C06/C08.
+   PARTIAL: the theorems speak about flush completions and wire bytes; that a read in flight is always either armed in
+   the adapter or waiting for a flush (never lost) is shown by the correspondence run and the refutation below, not as
+   an invariant; fuel exhaustion of the model is reported by the run. *)
+From Sonic Require Import Base.Prelude Model.WsAsync Proofs.WsAsyncProofs.
+Local Open Scope Z_scope.
+
+Theorem C17_invariant_every_step : forall s o, cinv [] s -> cinv [] (wastep s o).
+Proof. exact wastep_inv. Qed.
+Print Assumptions C17_invariant_every_step.
+
+(* Every history: the bytes on the wire are a prefix of the frames in the order they were queued (never interleaved,
+   never repeated, whatever the partial writes); every completion registered with a flush - the continuation of a read,
+   or the callback of AsyncWrite / AsyncWriteFrame / AsyncFlush / AsyncClose - has run exactly once or is still held by
+   the flush in flight: none dropped, none twice. *)
+Theorem C17_wire_in_order_and_callbacks_exactly_once : forall ops,
+  let s := warun (wa_init true) ops in
+  (exists rest, a_all s = a_wire s ++ rest) /\
+  (forall k, cnt k (a_fstart s) = cnt k (a_fdone s) + cnt k (outstanding s)).
+Proof. exact wire_prefix_and_callbacks_exact. Qed.
+Print Assumptions C17_wire_in_order_and_callbacks_exactly_once.
+
+(* The structure before the repair is refuted: the application write replaces the Pong flush in the adapter and the
+   continuation of the read is lost for good. *)
+Theorem C17_unserialised_flush_refuted :
+  let s := warun (wa_init false)
+             [WaRead 1; WaPeer 9 [7]; WaPoll 1000; WaWrite 100 [1; 2; 3]; WaPoll 1000; WaPoll 1000; WaPoll 1000;
+              WaPeer 1 [65]; WaPoll 1000; WaPoll 1000; WaPoll 1000] in
+  a_rd s = Some 1 /\ a_rwait s = false /\ outstanding s = [] /\ a_wr s = None /\ a_inq s = [(1, [65])] /\
+  map (fun e => fst (fst e)) (a_log s) = [100].
+Proof. exact unserialised_flush_drops_the_read. Qed.
+Print Assumptions C17_unserialised_flush_refuted.
+
+(* Non-vacuity: the same script on the repaired structure, with the transport taking 2 bytes per write call: both callbacks
+   run, the message is delivered, the wire carries the Pong then the application frame. *)
+Example C17_demo :
+  let s := warun (wa_init true)
+             [WaRead 1; WaPeer 9 [7]; WaPoll 2; WaWrite 100 [1; 2; 3]; WaPoll 2; WaPoll 2; WaPoll 2; WaPoll 2; WaPoll 2; WaPoll 2;
+              WaPeer 1 [65]; WaPoll 2; WaPoll 2] in
+  rev (a_log s) = [(100, 0, []); (1, 1, [65])] /\ a_wire s = [138; 1; 7; 130; 3; 1; 2; 3] /\ a_rd s = None /\ a_fuel_out s = false.
+Proof. vm_compute. repeat split; reflexivity. Qed.
